@@ -148,8 +148,71 @@ func checkDrbg(r *vlib.Run, d *vlib.Driver, c ccase) {
 			return
 		}
 	}
+	// S: returned blocks belong to the caller. (a) blocks retained across later draws keep their
+	// value; (b) scribbling over a returned block does not change what the generator returns
+	// afterwards (the stream is a function of the seed alone). Mixed NextBlock / Int63 draws.
+	g4, _ := drbg.NewHashDrbg(seed)
+	var kept [][]byte
+	for i := 0; i < n; i++ {
+		if i%3 == 2 {
+			v := g4.Int63()
+			var w [8]byte
+			binary.BigEndian.PutUint64(w[:], uint64(v))
+			want := append([]byte(nil), blocks[8*i:8*i+8]...)
+			want[0] &= 0x7f
+			if string(w[:]) != string(want) {
+				r.Violate("drbg-output-depends-on-caller-writes", "impl-oracle",
+					fmt.Sprintf("seed %s: after the caller overwrote returned blocks, draw #%d is %x, SipHash-OFB gives %x", c.Seed, i+1, w, want), c)
+				return
+			}
+			kept = append(kept, nil)
+			continue
+		}
+		b := g4.NextBlock()
+		if string(b) != string(blocks[8*i:8*i+8]) {
+			r.Violate("drbg-output-depends-on-caller-writes", "impl-oracle",
+				fmt.Sprintf("seed %s: after the caller overwrote returned blocks, block %d is %x, SipHash-OFB gives %x", c.Seed, i+1, b, blocks[8*i:8*i+8]), c)
+			return
+		}
+		kept = append(kept, b)
+		if i%2 == 0 {
+			for j := range b { // the caller owns the returned slice
+				b[j] ^= 0xa5
+			}
+		}
+	}
+	for i, b := range kept {
+		if b == nil {
+			continue
+		}
+		want := append([]byte(nil), blocks[8*i:8*i+8]...)
+		if i%2 == 0 {
+			for j := range want {
+				want[j] ^= 0xa5
+			}
+		}
+		if string(b) != string(want) {
+			r.Violate("drbg-returned-block-changes-after-later-draws", "impl-oracle",
+				fmt.Sprintf("seed %s: block %d retained by the caller was %x when returned and reads %x after %d later draws", c.Seed, i+1, want, b, n-1-i), c)
+			return
+		}
+	}
+	g5, _ := drbg.NewHashDrbg(seed)
+	var kept5 [][]byte
+	for i := 0; i < n; i++ {
+		kept5 = append(kept5, g5.NextBlock())
+	}
+	var late []byte
+	for _, b := range kept5 {
+		late = append(late, b...)
+	}
 	rep1 := d.Call("drbg.blocks %s %d", c.Seed, n)
 	rep2 := d.Call("drbg.int63s %s %d", c.Seed, n)
+	if rep1 == vlib.Hex(blocks) && vlib.Hex(late) != rep1 {
+		r.Violate("drbg-returned-block-changes-after-later-draws", "impl-oracle",
+			fmt.Sprintf("seed %s: %d blocks collected first and read afterwards are %s, the generator's stream is %s", c.Seed, n, vlib.Hex(late), rep1), c)
+		return
+	}
 	r.Validated(2)
 	r.Count("drbg-blocks", strconv.Itoa(n))
 	r.Sample(2, map[string]interface{}{"op": "drbg.blocks", "seed": c.Seed, "n": n, "impl": vlib.Hex(blocks), "model": rep1})
